@@ -9,6 +9,14 @@ ROOT = os.path.dirname(os.path.dirname(os.path.abspath(__file__)))
 E2NOTE = 'Stand-ins (SimQueue, SimPipeQueue, SimLock, SimEvent, ...) are trusted to have the semantics of the real primitives; worker processes are threads on fork copies; preemption at source-line and primitive-operation granularity.'
 
 CHECKS = {
+    "C18": ("E3", "exploration",
+            "real forked reader processes advanced one seek/readline at a time by a Hypothesis-generated schedule; value oracle against reference lines",
+            "The object is opened in the parent and used by 1..4 forked children, optionally the parent itself and a grandchild; the "
+            "controller grants single low-level seek/readline steps according to a generated schedule (round-robin after it is "
+            "exhausted), so seeks of one process fall between seek and readline of another. Every value read anywhere must equal the "
+            "reference line; files up to 200 KB so that private user-space buffers cannot mask interference.",
+            "Schedule control stops at Python-level seek/readline calls on the handle; real fork, real descriptors.",
+            "DESIGN.md §3 E3, §4 C18"),
     "C01": ("E2+E5", "exploration",
             "the real pool code under a harness-owned scheduler: Hypothesis-generated configurations, inputs and schedules (deviation-bounded, PCT, seeded walk) + bounded-exhaustive schedule sweeps; value oracle and end-of-call queue inspection; ddmin on the schedule",
             "The unmodified FunctorPool/FactoryFunctorPool code runs with every primitive operation and every source line as a "
